@@ -52,6 +52,50 @@ PROPS = {
         "trusted_base": SCEN_TB,
         "assumptions": ["promptness clause not proved (partial)"],
     },
+    "C08": {
+        "theorems": ["NLE.Theorems.C08"],
+        "models": ["Life"],
+        "modes": scen("basic", "faults", "health", "conn", "stoppoints", "stoptimeout", "takeover", "tamper"),
+        "level": "proof",
+        "claim": "Theorems over every execution of the lifecycle model (NLE/Model/Life.lean): inductive invariant 'promotions started or owed = demotions started or owed + [flag raised]' with at most one demotion owed; a promotion callback starts only when the counts are level and with the token of its term, a demotion callback only when promotions lead by one (strict alternation starting with a promotion); at every quiescent point outside a stop call the instance reports leadership exactly when promotions outnumber demotions by one. Dispatch order is proved; start order of the asynchronous promotion callback relative to a same-instant demotion is an assumption of the model that holds under the harness's deterministic scheduling (partial).",
+        "design_ref": "§6 C08",
+        "rule": "all demotion causes (heartbeat failure, validation failure, health, connection loss, observed preemption, Stop, StopWithContext incl. time-outs), several firing together; distinct non-trivial = (scenario, trigger) pairs with a demotion not caused by a stop or a term start",
+        "trusted_base": [t.replace("NLE/Model/Own.lean", "NLE/Model/Life.lean") for t in SCEN_TB],
+        "assumptions": ["the promotion callback goroutine starts before a later demotion callback of the same term (holds under GOMAXPROCS=1 in the harness)"],
+    },
+    "C09": {
+        "theorems": ["NLE.Theorems.C09"],
+        "models": ["Life", "Own"],
+        "modes": scen("stoppoints", "stoptimeout", "basic", "conn", "takeoverstop", "faults"),
+        "level": "proof",
+        "claim": "Proved over the lifecycle model: once a stop call has begun and until the next Start no event raises the flag, begins a promotion or dispatches a promotion callback, and after the call's critical section the instance is STOPPED and not leader. Validated on every trace (monitors, harness watchdog), not proved: no store operation after the stop returned, return within 5 s / the time-out, no panic or deadlock, no goroutine left once in-flight operations return, record gone with DeleteKey when the instance owned it at the call (partial). Stop points are enumerated by triggers at issue / application / answer of each store operation of the stopping instance.",
+        "design_ref": "§6 C09",
+        "rule": "stop calls (Stop, StopWithContext with all option combinations, repeated stops, stop-then-start) fired at exact phases (issue, application, answer, +/- delays) of the n-th store operation of the stopping instance, plus time-outs with blocked callbacks; distinct non-trivial = (scenario, trigger) pairs",
+        "trusted_base": [t.replace("NLE/Model/Own.lean", "NLE/Model/Life.lean and NLE/Model/Own.lean") for t in SCEN_TB],
+        "assumptions": ["timing and clean-up clauses validated, not proved"],
+    },
+    "C18": {
+        "theorems": ["NLE.Theorems.C18"],
+        "models": ["Life", "Own"],
+        "modes": scen("basic", "takeover", "tamper", "vacancy", "faults", "stoppoints"),
+        "level": "proof",
+        "claim": "Proved over the lifecycle model: every status snapshot the model accepts is self-consistent (IsLeader iff State=LEADER, documented states, gauge = flag), shows STOPPED/not leader after a stop until the next Start, and transitions form a chain from CANDIDATE. A leader's token being its own record's token is proved in the ownership model (C05). Validated by monitors on every trace: leader's LeaderID/revision, follower's LeaderID convergence within one periodic check (partial).",
+        "design_ref": "§6 C18",
+        "rule": "Status() sampled by the harness at every quiescent point (after every step and periodically) of every scenario; distinct non-trivial = (scenario, trigger) pairs",
+        "trusted_base": [t.replace("NLE/Model/Own.lean", "NLE/Model/Life.lean and NLE/Model/Own.lean") for t in SCEN_TB],
+        "assumptions": ["synctest.Wait gives quiescent points"],
+    },
+    "C19": {
+        "theorems": ["NLE.Theorems.C19"],
+        "models": ["Life"],
+        "modes": scen("health", "faults", "stoppoints", "stoptimeout", "conn", "takeover"),
+        "level": "proof",
+        "claim": "Proved over the lifecycle model: a promotion context is cancelled only after its term ended or its callback returned; a context whose term is not over belongs to the term in progress; clearing the flag (any demotion cause, or a stop) ends the term of every context; at every quiescent point the contexts of ended terms are cancelled. 'Promptly' = by the next quiescent point on the implementation.",
+        "design_ref": "§6 C19",
+        "rule": "promotion callbacks that block on their context / return at once / ignore it, under every cause of term end; distinct non-trivial = (scenario, trigger) pairs with a term start",
+        "trusted_base": [t.replace("NLE/Model/Own.lean", "NLE/Model/Life.lean") for t in SCEN_TB],
+        "assumptions": ["context cancellation observed at quiescent points"],
+    },
     "C17": {
         "theorems": ["NLE.Theorems.C17", "NLE.Theorems.C17Round"],
         "modes": [("bo", 3000, 40000), ("retry", 1500, 20000), ("brk", 1500, 20000)],
